@@ -134,6 +134,70 @@ def _is_count(v) -> bool:
         (isinstance(v.func, ast.Attribute) and v.func.attr == "count") or (isinstance(v.func, ast.Name) and v.func.id == "count"))
 
 
+_MUTATORS = {"add", "append", "update", "setdefault", "pop", "popitem", "clear", "extend", "insert", "remove", "discard",
+             "__setitem__", "appendleft", "move_to_end"}
+_CONTAINERS = ("dict", "list", "set", "defaultdict", "OrderedDict", "deque", "WeakKeyDictionary", "WeakValueDictionary",
+               "WeakSet", "Counter", "ChainMap")
+
+
+def _session_globals() -> list[str]:
+    """state outside the CompilationEngine that survives reset(): module- or class-level names bound to a container
+    (literal or constructor) that some function of the module mutates (subscript store / del, mutating method,
+    augmented assignment, `global` rebinding), and functions memoised by functools.cache / lru_cache
+    (cached_property is per object, not per session)"""
+    out = []
+    for root, _d, files in os.walk(_pkg()):
+        for fn in sorted(files):
+            if not fn.endswith(".py"):
+                continue
+            rel = os.path.relpath(os.path.join(root, fn), _pkg())
+            tree = _parse(rel)
+            names: dict[str, str] = {}
+
+            def scan(body, prefix):
+                for st in body:
+                    t, v = None, None
+                    if isinstance(st, ast.Assign) and len(st.targets) == 1 and isinstance(st.targets[0], ast.Name):
+                        t, v = st.targets[0].id, st.value
+                    elif isinstance(st, ast.AnnAssign) and isinstance(st.target, ast.Name) and st.value is not None:
+                        t, v = st.target.id, st.value
+                    if t is not None:
+                        fnm = None
+                        if isinstance(v, ast.Call):
+                            fnm = v.func.attr if isinstance(v.func, ast.Attribute) else (
+                                v.func.id if isinstance(v.func, ast.Name) else None)
+                        if isinstance(v, (ast.Dict, ast.List, ast.Set, ast.DictComp, ast.ListComp, ast.SetComp)) \
+                                or fnm in _CONTAINERS:
+                            names[t] = prefix + t
+                    if isinstance(st, ast.ClassDef):
+                        scan(st.body, prefix + st.name + ".")
+            scan(tree.body, "")
+            mutated = set()
+            for f in ast.walk(tree):
+                if not isinstance(f, (ast.FunctionDef, ast.AsyncFunctionDef, ast.Lambda)):
+                    continue
+                if not isinstance(f, ast.Lambda):
+                    for d in f.decorator_list:
+                        dn = ast.unparse(d).split("(")[0]
+                        if dn.split(".")[-1] in ("cache", "lru_cache"):
+                            out.append(f"{rel}:@{dn} {f.name}")
+                for n in ast.walk(f):
+                    b = None
+                    if isinstance(n, ast.Subscript) and isinstance(n.ctx, (ast.Store, ast.Del)):
+                        b = n.value
+                    elif isinstance(n, ast.Call) and isinstance(n.func, ast.Attribute) and n.func.attr in _MUTATORS:
+                        b = n.func.value
+                    elif isinstance(n, ast.AugAssign):
+                        b = n.target
+                    elif isinstance(n, ast.Global):
+                        mutated.update(x for x in n.names if x in names)
+                    nm = b.id if isinstance(b, ast.Name) else (b.attr if isinstance(b, ast.Attribute) else None)
+                    if nm in names:
+                        mutated.add(nm)
+            out.extend(f"{rel}:{names[nm]}" for nm in sorted(mutated))
+    return sorted(set(out))
+
+
 def facts() -> dict:
     f: dict = {}
     eng = _parse("engine.py")
@@ -272,6 +336,7 @@ def facts() -> dict:
                     if isinstance(st, ast.ClassDef):
                         scan(st.body, prefix + st.name + ".")
             scan(tree.body, "")
+    f["session_globals"] = _session_globals()
     f["frame_writes"] = sorted(writes)
     f["counters"] = sorted(counters)
     return f
@@ -300,6 +365,8 @@ def render(f: dict) -> str:
         f"/-- subscript stores / mutating calls on a frame namespace -/\ndef frameWrites : List String := {ls(f['frame_writes'])}\n\n"
         f"/-- module- or class-level `itertools.count()` counters (outside std/): state no `reset()` touches -/\n"
         f"def counters : List String := {ls(f['counters'])}\n\n"
+        f"/-- module-level containers mutated from functions, functools.cache / lru_cache memo tables: state outside the engine -/\n"
+        f"def sessionGlobals : List String := {ls(f['session_globals'])}\n\n"
         "end GuppyVerif.Session.Gen\n"
     )
 
